@@ -115,7 +115,8 @@ def coq_make(timeout=1500, keep_going=True, target=None):
 			status, out = run(['coq_makefile', '-f', '_CoqProject.build', '-o', 'Makefile'], 120, cwd=COQ)
 			if status != 0:
 				return False, out
-		status, out = run(['make', f'-j{NCPU}'] + (['-k'] if keep_going else []) + ([target] if target else []), timeout, cwd=COQ)
+		targets = [target] if isinstance(target, str) else list(target or [])
+		status, out = run(['make', f'-j{NCPU}'] + (['-k'] if keep_going else []) + targets, timeout, cwd=COQ)
 		return status == 0, out
 
 
@@ -129,11 +130,29 @@ def coqc(path, timeout=600):
 _STRING_RE = re.compile(r'"((?:[^"]|"")*)"')
 
 
+_IMPORTS_BUILT = set()
+
+
+def _build_imports(imports):
+	"""Brings the libraries a cases file imports up to date (they may lie outside the dependency cone of the Props file the
+	check built, and a regenerated Gen file would otherwise leave them stale: 'inconsistent assumptions')."""
+	modules = sorted(set(re.findall(r'\b((?:Base|Cats|Sym|Lint|Gen|Props)\.[A-Za-z0-9_\']+)', imports)))
+	targets = [m.replace('.', '/') + '.vo' for m in modules if (COQ / (m.replace('.', '/') + '.v')).exists()]
+	key = tuple(targets)
+	if not targets or key in _IMPORTS_BUILT:
+		return
+	_IMPORTS_BUILT.add(key)
+	ok, out = coq_make(target=targets, keep_going=True)
+	if not ok:
+		sys.stderr.write('warning: building the imports of a cases file failed:\n' + out[-1500:] + '\n')
+
+
 def coq_eval(imports, exprs, tag, shard=250, timeout=900):
 	"""Evaluates Gallina expressions of type string with vm_compute; returns the list of resulting strings.
 	imports: text placed at the head of every cases file."""
 	if not exprs:
 		return []
+	_build_imports(imports)
 	work = COQ / 'Cases' / f'{tag}_{os.getpid()}'
 	if work.exists():
 		shutil.rmtree(work)
